@@ -73,9 +73,14 @@ def prep_schema(detector, medium_index, illum_wavelen, illum_polarization):
         else:
             #  need to interpret illumination from detector.illum_wavelen
             if not isinstance(illum_wavelen, xr.DataArray):
+                labels = illum_wavelen
+                if (illumination in detector.dims and
+                        len(detector.illumination) == len(illum_wavelen)):
+                    #  one wavelength per channel of the detector
+                    labels = detector.illumination.values
                 illum_wavelen = xr.DataArray(
                     illum_wavelen, dims=illumination,
-                    coords={illumination: illum_wavelen})
+                    coords={illumination: labels})
             illum_polarization = xr.broadcast(
                 illum_polarization, illum_wavelen, exclude=[vector])[0]
 
